@@ -83,6 +83,25 @@ let show_noce (st, e) = (match st with NcDNE -> "DNE" | NcDNEInsecure -> "DNEI" 
 let show_n3st (st, e) = (match st with S3NoData -> "NoData" | S3NoDataInsecure -> "NoDataInsecure" | S3Bogus -> "Bogus" | S3Nothing -> "Nothing") ^ " " ^ si e
 
 (* child <maxbad> <nds> <nkeys> <nsigs> ds:(alg tag dt digest)* key:(alg tag d1 d2 d4)* sig:(tag validkeys)* *)
+(* anchor <maxbad> <nta> <nkeys> <nsigs> ta:(K id - - - | D alg tag dt digest | O - - - -)* key:(alg tag d1 d2 d4)* sig:(tag validkeys)* *)
+let anchor_case maxbad nta nkeys nsigs ws =
+  let rec take k l acc = if k = 0 then (List.rev acc, l) else match l with [] -> failwith "short anchor case" | x :: r -> take (k - 1) r (x :: acc) in
+  let (taw, r1) = take (5 * nta) ws [] in
+  let (kw, r2) = take (5 * nkeys) r1 [] in
+  let (sw, r3) = take (2 * nsigs) r2 [] in
+  if r3 <> [] then failwith "long anchor case";
+  let rec tas = function [] -> []
+    | "K" :: id :: _ :: _ :: _ :: r -> TaKey (n_of_s id) :: tas r
+    | "D" :: a :: t :: dt :: d :: r -> TaDs { d_alg = n_of_s a; d_tag = n_of_s t; d_dt = n_of_s dt; d_digest = bytes_of_hex d } :: tas r
+    | "O" :: _ :: _ :: _ :: _ :: r -> TaOther :: tas r
+    | _ -> failwith "ta" in
+  let rec keys i = function [] -> [] | a :: t :: d1 :: d2 :: d4 :: r -> ({ k_alg = n_of_s a; k_tag = n_of_s t; k_id = n_of_int i }, (d1, d2, d4)) :: keys (i + 1) r | _ -> failwith "key" in
+  let rec sigs i = function [] -> [] | t :: v :: r -> ({ sg_tag = n_of_s t; sg_id = n_of_int i }, (if v = "-" then [] else List.map int_of_string (String.split_on_char ',' v))) :: sigs (i + 1) r | _ -> failwith "sig" in
+  let ks = keys 0 kw and ss = sigs 0 sw in
+  let dg k dt = let (_, (d1, d2, d4)) = List.find (fun (k', _) -> k'.k_id = k.k_id) ks in
+    bytes_of_hex (match int_of_n dt with 1 -> d1 | 2 -> d2 | 4 -> d4 | _ -> "-") in
+  let vf k s = let (_, v) = List.find (fun (s', _) -> s'.sg_id = s.sg_id) ss in List.mem (int_of_n k.k_id) v in
+  str_vstate (trust_anchor_state dg vf (tas taw) (List.map fst ks) (List.map fst ss) (n_of_s maxbad))
 let child_case maxbad nds nkeys nsigs ws =
   let rec take k l acc = if k = 0 then (List.rev acc, l) else match l with [] -> failwith "short child case" | x :: r -> take (k - 1) r (x :: acc) in
   let (dsw, r1) = take (4 * nds) ws [] in
@@ -110,6 +129,9 @@ let handle = function
   | "dsproof" :: t :: ci :: cb :: tbl :: gs ->
       show_o (function InsecureDelegation -> "Insecure" | _ -> "Bogus")
         (no_ds_decision (hfun (htable tbl)) (n_of_s ci) (n_of_s cb) (name_of_hex t) (dgroups gs))
+  | "wild" :: sname :: stw :: signer :: ce :: gs ->
+      show_o str_vstate (wildcard_msg_state (fun _ _ _ -> []) (n_of_int 100) (n_of_int 500) (name_of_hex sname) (vstate_of stw) (name_of_hex signer) (oname_of_hex ce) (sgroups gs))
+  | "anchor" :: maxbad :: nta :: nkeys :: nsigs :: ws -> anchor_case maxbad (int_of_string nta) (int_of_string nkeys) (int_of_string nsigs) ws
   | "child" :: maxbad :: nds :: nkeys :: nsigs :: ws -> child_case maxbad (int_of_string nds) (int_of_string nkeys) (int_of_string nsigs) ws
   | "n3" :: f :: t :: qt :: signer :: ci :: cb :: tbl :: gs ->
       let h = hfun (htable tbl) and t = name_of_hex t and s = name_of_hex signer and g = n3groups gs in
@@ -134,6 +156,7 @@ let handle = function
   | "negmsg" :: nx :: t :: qt :: signer :: gs ->
       show_o (fun (s, e) -> (match s with Secure -> "Secure" | Insecure -> "Insecure" | Bogus -> "Bogus" | Indeterminate -> "Indeterminate") ^ " " ^ string_of_int (int_of_n e))
         (negative_msg_state (b_of nx) (name_of_hex t) (n_of_s qt) (name_of_hex signer) (sgroups gs))
+  | ["reval"; n1; n2; inc; exp] -> show_o sb (revalidate (n_of_s n1) (n_of_s n2) (n_of_s inc) (n_of_s exp))
   | ["sigtime"; now; inc; exp] -> sb (c14_sig_time_ok (n_of_s now) (n_of_s inc) (n_of_s exp))
   | ["wce"; owner; labels] -> (match c14_wildcard_ce (name_of_hex owner) (n_of_s labels) with None -> "-" | Some ce -> hex_of_name ce)
   | "answer" :: q :: qt :: maxc :: gs ->
